@@ -421,3 +421,7 @@ func vecBuildOracle(seg segment.Segment, exp *ref.Content) string {
 	}
 	return vecMergeOracle(seg, exp)
 }
+
+func refVecDocs() []spec.Doc {
+	return enum.VecCase{Docs: []int{2, 6}, Metric: "l2_norm"}.Batch().Docs
+}
